@@ -643,7 +643,7 @@ Definition eui_from_text (n : nat) (t : list Z) : res (list Z) :=
     end.
 
 (* dns.rdtypes.util.parse_formatted_hex(formatted, 4, 4, ":") as a check (NID and L64 keep the text itself
-   and only validate it): 19 characters, four groups of hexadecimal digits (fix 18da675: digits only, not
+   and only validate it): 19 characters, four groups of hexadecimal digits (fix 19725b9: digits only, not
    everything int(.., 16) accepts) followed by ":" except after the last one *)
 Definition is_hexdigit (c : Z) : bool :=
   ((48 <=? c) && (c <=? 57)) || ((97 <=? c) && (c <=? 102)) || ((65 <=? c) && (c <=? 70)).
